@@ -98,6 +98,8 @@ class ConnectRequestInformation:
 
     def from_knx(self, raw: bytes) -> int:
         """Parse/deserialize from KNX/IP raw data."""
+        if len(raw) < ConnectRequestInformation.CRI_LENGTH:
+            raise CouldNotParseKNXIP("CRI data has wrong length")
         cri_length = raw[0]
         if len(raw) < cri_length:
             raise CouldNotParseKNXIP("CRI data has wrong length")
